@@ -11,7 +11,7 @@ warnings.simplefilter("ignore")
 from pams.agents import ArbitrageAgent, FCNAgent, MarketMakerAgent, MarketShareFCNAgent  # noqa: E402
 from pams.index_market import IndexMarket  # noqa: E402
 from pams.market import Market  # noqa: E402
-from pams.order import LIMIT_ORDER, Cancel, Order  # noqa: E402
+from pams.order import LIMIT_ORDER, MARKET_ORDER, Cancel, Order  # noqa: E402
 from pams.simulator import Simulator  # noqa: E402
 
 ID = "C20"
@@ -63,7 +63,8 @@ def states(draw, n_markets=(1, 3), index=False, max_steps=30, with_quotes=True, 
     quotes = []
     if with_quotes:
         for _ in range(draw(st.integers(0, 6))):
-            quotes.append([draw(st.integers(0, n - 1 + (1 if index else 0))), draw(st.booleans()), draw(st.integers(1, 8)), draw(st.sampled_from([None, 3]))])
+            quotes.append([draw(st.integers(0, n - 1 + (1 if index else 0))), draw(st.booleans()), draw(st.integers(1, 8)), draw(st.sampled_from([None, 3])),
+                           draw(st.integers(0, 5)) == 0])  # (last: a MARKET order left resting, as in a session without execution)
     idx2 = None
     if index and second_index and draw(st.booleans()):
         idx2 = {"p0": draw(st.sampled_from([90.0, 200.0, 310.0])), "trade": [draw(st.one_of(st.none(), st.floats(0.9, 1.1))) for _ in range(T + 1)]}
@@ -123,10 +124,13 @@ def build_state(state):
                 trade(m, s["trade"][j], s["vol"][j])
         if k + 1 < len(steps):
             advance(steps[k + 1]["fund"])
-    for (j, is_buy, off, ttl) in state["quotes"]:
+    for q in state["quotes"]:
+        j, is_buy, off, ttl = q[:4]
         m = allm[j % len(allm)]
         p = m.get_market_price() + (-off if is_buy else off) * m.tick_size
-        if p > 0:
+        if len(q) > 4 and q[4]:
+            _call(m._add_order, Order(agent_id=92, market_id=m.market_id, is_buy=is_buy, kind=MARKET_ORDER, volume=1, ttl=ttl))
+        elif p > 0:
             _call(m._add_order, Order(agent_id=92, market_id=m.market_id, is_buy=is_buy, kind=LIMIT_ORDER, volume=1, price=p, ttl=ttl))
     for _ in range(state.get("tail", 0)):
         advance(steps[-1]["fund"])
@@ -166,7 +170,8 @@ def fcn_params(draw, noise=False):
     p = {"fundamentalWeight": {"const": [wf]}, "chartWeight": {"const": [wc]}, "noiseWeight": {"const": [wn]},
          "noiseScale": {"const": [draw(st.sampled_from([0.001, 0.01, 0.05])) if noise else (0.0 if wn > 0 else draw(st.sampled_from([0.0, 0.01])))]},
          "timeWindowSize": {"const": [draw(st.integers(1, 40))]}, "orderMargin": {"const": [draw(st.floats(0.0, 0.3))]},
-         "cashAmount": 1000, "assetVolume": 10}
+         # (holdings do not enter the documented rule: an agent without inventory or cash still quotes -- pams agents may go short)
+         "cashAmount": draw(st.sampled_from([1000, 1000, 0, -500])), "assetVolume": draw(st.sampled_from([10, 10, 0, -3]))}
     if draw(st.booleans()):
         p["meanReversionTime"] = {"const": [draw(st.integers(0, 60))]}
     r = draw(st.integers(0, 3))
@@ -176,6 +181,10 @@ def fcn_params(draw, noise=False):
         # "normal" margin mode: price = expected price + N(0,1) * margin -- the side rule and well-formedness still apply
         p["marginType"] = "normal"
         p["orderMargin"] = {"const": [draw(st.sampled_from([0.0, 0.5, 2.0]))]}
+        if "meanReversionTime" in p:
+            # (a mean reversion time far below the window extrapolates the expected price towards 0, where "expected price + Gaussian
+            #  noise" can turn negative and trips pams' own assertion: not a regime the documented strategy is meant for)
+            p["meanReversionTime"] = {"const": [max(p["meanReversionTime"]["const"][0], p["timeWindowSize"]["const"][0])]}
     return p
 
 
